@@ -334,6 +334,9 @@ func TestVerifServerWritePaths(t *testing.T) {
 					if n == 1 && (k == "truncated" || k == "wrongSizeSmaller") {
 						continue // would claim / deliver the empty blob
 					}
+					if n == 1 && k == "abort" {
+						continue // the only message already carries the whole blob: storing it is right
+					}
 					rec.Case()
 					u := vMakeUpload(rng, p, k, n)
 					if strings.HasPrefix(p, "fetchBlob") {
